@@ -1,10 +1,15 @@
 import GrmVerif.Model.Header
+import GrmVerif.Model.YaccParse
 import GrmVerif.Lemmas.HeaderSpec
 import GrmVerif.Drive.Util
 /-!
 Driver for C12. Request: `category 0 nchars cp… k outcome₁ … outcome_k` — the text and what each of
 the k entry points run on it returned (category 0 header / 1 yacc / 2 lex text decides which entry
 points; the first two are always `GrmtoolsSectionParser::new(src, false|true).parse()`).
+For category 1 (yacc) the reply also has five `My k …` lines: the model of the yacc text parser
+(`Model/YaccParse.lean`) for the five `YaccKind`s the harness runs (k = 0 Grmtools, 1 Eco, 2–4 the
+three `Original(_)`), in the format of the harness's `Iy` lines: the result of `parse` (ok / error
+kinds with spans, in order) and the AST summary (see `fmtAst`).
 Reply: `M …` twice (model of the header parser for required = false, true; same format as the
 harness's two `I` lines) and `V ok|fail …` (the verified checker `outcomesOKb` on all k outcomes).
 outcome: `0` (did not return) | `1 pos nspans (s e)…` | `2 nerrs (nspans (s e)…)…`
@@ -94,9 +99,79 @@ def firstBad (src : List Char) : List Outcome → Nat → String
   | [], _ => "?"
   | o :: os, k => if outcomeOKb src o then firstBad src os (k + 1) else s!"entry point {k}: {why src o}"
 
+/-! ### the yacc text parser -/
+section Yacc
+open GrmVerif.YaccParse
+
+def fmtName (n : List Char) : String := "n" ++ ".".intercalate (n.map (fun c => toString c.toNat))
+
+def fmtEK : EK → String
+  | .illegalInteger => "IllegalInteger" | .illegalName => "IllegalName" | .illegalString => "IllegalString"
+  | .incompleteRule => "IncompleteRule" | .incompleteComment => "IncompleteComment"
+  | .incompleteAction => "IncompleteAction" | .missingColon => "MissingColon"
+  | .missingRightArrow => "MissingRightArrow" | .nonEmptyProduction => "NonEmptyProduction"
+  | .prematureEnd => "PrematureEnd" | .productionNotTerminated => "ProductionNotTerminated"
+  | .unknownDeclaration => "UnknownDeclaration" | .dupPrecedence => "DuplicatePrecedence"
+  | .dupAvoidInsert => "DuplicateAvoidInsertDeclaration"
+  | .dupImplicitTokens => "DuplicateImplicitTokensDeclaration" | .dupExpect => "DuplicateExpectDeclaration"
+  | .dupExpectRR => "DuplicateExpectRRDeclaration" | .dupStart => "DuplicateStartDeclaration"
+  | .dupActiontype => "DuplicateActiontypeDeclaration" | .dupEPP => "DuplicateEPP"
+  | .reachedEOL => "ReachedEOL" | .invalidString => "InvalidString" | .unknownSymbol => "UnknownSymbol"
+  | .header _ => "Header"
+
+def fmtYErr (e : YErr) : String :=
+  s!"{fmtEK e.kind} {e.spans.length}" ++ String.join (e.spans.map (fun s => " " ++ fmtSpan s))
+
+def fmtSym (s : Sym) : String := s!"{if s.isTok then "T" else "R"} {fmtName s.name} {fmtSpan s.span}"
+
+def fmtNS (x : List Char × Span) : String := s!"{fmtName x.1} {fmtSpan x.2}"
+
+def fmtList {α : Type} (f : α → String) (l : List α) : String :=
+  toString l.length ++ String.join (l.map (fun x => " " ++ f x))
+
+def fmtOpt {α : Type} (f : α → String) : Option α → String
+  | none => "-"
+  | some x => f x
+
+def fmtAssoc : Assoc → String
+  | .left => "0" | .right => "1" | .nonassoc => "2"
+
+def fmtProd (a : Ast) (p : Prod) : String :=
+  s!"{(a.rules.findIdx? (fun r => r.1 == p.rule)).getD 999999} {fmtList fmtSym p.syms} {fmtOpt fmtName p.prec} {if p.action then 1 else 0} {fmtSpan p.span}"
+
+def fmtAst (a : Ast) : String :=
+  s!"S {fmtOpt fmtNS a.start}" ++
+  s!" T {fmtList (fun t => s!"{fmtNS t} {if a.tokenDirs.contains t.1 then 1 else 0}") a.tokens}" ++
+  s!" R {fmtList fmtNS a.rules}" ++
+  s!" P {fmtList (fmtProd a) a.prods}" ++
+  s!" C {fmtList (fun (c : List Char × Nat × Assoc × Span) => s!"{fmtName c.1} {c.2.1} {fmtAssoc c.2.2.1} {fmtSpan c.2.2.2}") a.precs}" ++
+  s!" A {fmtOpt (fmtList fmtNS) a.avoidInsert}" ++
+  s!" I {fmtOpt (fmtList fmtNS) a.implicitTokens}" ++
+  s!" E {fmtList (fun (e : List Char × Span × List Char × Span) => s!"{fmtName e.1} {fmtSpan e.2.1} {fmtName e.2.2.1} {fmtSpan e.2.2.2}") a.epp}" ++
+  s!" X {fmtOpt (fun (x : Nat × Span) => s!"{x.1} {fmtSpan x.2}") a.expect}" ++
+  s!" Y {fmtOpt (fun (x : Nat × Span) => s!"{x.1} {fmtSpan x.2}") a.expectrr}" ++
+  s!" PP {fmtOpt fmtName a.parseParam}" ++
+  s!" PG {fmtOpt fmtName a.parseGenerics}" ++
+  s!" G {fmtOpt toString a.programs}" ++
+  s!" U {fmtList fmtSym a.expectUnused}"
+
+def fmtYacc : Res (List YErr × Ast) (Nat × Ast) → String
+  | .ok (_, a) => s!"ok {fmtAst a}"
+  | .err (errs, a) => s!"err {fmtList fmtYErr errs} {fmtAst a}"
+  | .panic => "panic"
+  | .fuelOut => "hang"
+
+def yaccKinds : List Kind := [.grmtools, .eco, .original, .original, .original]
+
+def yaccLines (src : List Char) : String :=
+  String.join ((List.range 5).map (fun k =>
+    s!"\nMy {k} {fmtYacc (YaccParse.parse src (yaccKinds.getD k .original))}"))
+
+end Yacc
+
 def handle (args : List Nat) : String :=
   match args with
-  | _cat :: _ :: rest =>
+  | cat :: _ :: rest =>
     match takeList rest with
     | none => "bad-request"
     | some (cps, rest) =>
@@ -108,7 +183,8 @@ def handle (args : List Nat) : String :=
         | none => "bad-request"
         | some os =>
           let v := if outcomesOKb src os then "V ok" else "V fail " ++ firstBad src os 0
-          s!"M {fmtRes (parse src false)}\nM {fmtRes (parse src true)}\n{v}"
+          s!"M {fmtRes (parse src false)}\nM {fmtRes (parse src true)}\n{v}" ++
+            (if cat = 1 then yaccLines src else "")
   | _ => "bad-request"
 
 end GrmVerif.Drive.C12
